@@ -127,14 +127,19 @@ func (pa *peerAddrs) PopIfExpired(now time.Time) (*expiringAddr, bool) {
 }
 
 func (pa *peerAddrs) Update(a *expiringAddr) {
-	if a.heapIndex == -1 {
+	if a.IsConnected() {
+		// connected addrs are not tracked in the heap
+		if a.heapIndex != -1 {
+			heap.Remove(pa, a.heapIndex)
+		}
 		return
 	}
-	if a.IsConnected() {
-		heap.Remove(pa, a.heapIndex)
-	} else {
-		heap.Fix(pa, a.heapIndex)
+	if a.heapIndex == -1 {
+		// the addr left the connected class: it must expire from now on
+		heap.Push(pa, a)
+		return
 	}
+	heap.Fix(pa, a.heapIndex)
 }
 
 func (pa *peerAddrs) Insert(a *expiringAddr) {
